@@ -135,7 +135,13 @@ pub fn exec_multi(case: &MultiCase, out: &mut CaseOut) -> Result<(), Fail> {
         calls += 1;
         let codec = if which == "A" { case.a.codec } else { case.b.codec };
         // keep the log cheap: only call kind + result (rendering huge datagrams would dominate the run time)
-        log.push_back(format!("{which}: {} => {:?}", if rec.call.render(codec).len() < 400 { rec.call.render(codec) } else { rec.call.kind().to_string() }, rec.res));
+        let payload = match &rec.call {
+            Call::Data(b) | Call::AddBroadcast(b) => b.len(),
+            Call::ApplyMany(ms, _) => ms.len() * 8,
+            _ => 0,
+        };
+        let shown = if payload > 120 { format!("{}(<{} bytes>)", rec.call.kind(), payload) } else { rec.call.render(codec) };
+        log.push_back(format!("{which}: {} => {:?}", shown, rec.res));
         if log.len() > 14 {
             log.pop_front();
         }
@@ -558,7 +564,7 @@ pub fn run_inner(ctx: &Ctx, report: &mut Report) {
     ctx.replay_corpus("api_ops", report);
     ctx.replay_corpus("wire_bytes", report);
     if ctx.tier == Tier::Thorough && std::env::var("VERIF_C06_CHILD").is_err() {
-        ctx.fuzz_campaign("api_ops", 4_000_000, 4096, report);
+        ctx.fuzz_campaign("api_ops", 3_000_000, 2048, report);
         ctx.fuzz_campaign("wire_bytes", 20_000_000, 300, report);
     }
     ctx.run_part(&OpsPart, report);
